@@ -365,6 +365,17 @@ func (s *c39State) reconcile(ipamFail bool) {
 		if !c39Established(b) || a == nil || a.Spec.Disabled || a.DeletionTimestamp != nil || c39CondTrue(a) {
 			continue
 		}
+		clash := false
+		for m, o := range before {
+			if m != n && c39Established(o) && c39Overlap(o.Spec.CIDR, b.Spec.CIDR) {
+				// two established overlapping pools already existed (only reachable through a reconcile on a
+				// stale cache, counted separately): one of them has to lose, to an established pool
+				clash = true
+			}
+		}
+		if clash {
+			continue
+		}
 		for _, m := range c39Names(after) {
 			q := after[m]
 			if m != n && c39Overlap(q.Spec.CIDR, b.Spec.CIDR) && c39CondTrue(q) && c39IPAMAllocatable(q) && !c39Established(before[m]) {
